@@ -73,8 +73,8 @@ def _run_chunk(jobs, tag, timeout):
     rnd = 0
     while todo:
         rnd += 1
-        jf = os.path.join(WORK, "%s.%d.jobs.ndjson" % (tag, rnd))
-        of = os.path.join(WORK, "%s.%d.out.ndjson" % (tag, rnd))
+        jf = os.path.join(WORK, "%s.p%d.%d.jobs.ndjson" % (tag, os.getpid(), rnd))     # (two checks may run at the same time)
+        of = os.path.join(WORK, "%s.p%d.%d.out.ndjson" % (tag, os.getpid(), rnd))
         with open(jf, "w") as f:
             for j in todo:
                 f.write(json.dumps(j) + "\n")
@@ -153,7 +153,7 @@ def _run_chunk(jobs, tag, timeout):
             break
     # the job and output files have been read: keep the work directory small
     for r in range(1, rnd + 1):
-        for f_ in (os.path.join(WORK, "%s.%d.jobs.ndjson" % (tag, r)), os.path.join(WORK, "%s.%d.out.ndjson" % (tag, r))):
+        for f_ in (os.path.join(WORK, "%s.p%d.%d.jobs.ndjson" % (tag, os.getpid(), r)), os.path.join(WORK, "%s.p%d.%d.out.ndjson" % (tag, os.getpid(), r))):
             try:
                 os.remove(f_)
             except OSError:
@@ -252,7 +252,7 @@ def validate_traces(module, traces, tag, workers=4, timeout=900, cfg=None, env=N
     states = distinct = 0
     wall = 0.0
     out = ""
-    tf = os.path.join(WORK, "%s.traces.ndjson" % tag)
+    tf = os.path.join(WORK, "%s.p%d.traces.ndjson" % (tag, os.getpid()))
     for c0 in range(0, len(traces), chunk):
         part = traces[c0:c0 + chunk]
         with open(tf, "w") as f:
@@ -275,6 +275,10 @@ def validate_traces(module, traces, tag, workers=4, timeout=900, cfg=None, env=N
         distinct += r["distinct"]
         wall += r["wall"]
         out += r["out"]
+    try:
+        os.remove(tf)
+    except OSError:
+        pass
     return {"accepted": acc, "rejected": rej, "states": states, "distinct": distinct,
             "out": out, "wall": wall, "file": tf}
 
@@ -282,7 +286,7 @@ def validate_traces(module, traces, tag, workers=4, timeout=900, cfg=None, env=N
 def diagnose_trace(module, trace, tag, cfg=None, env=None):
     """Re-run one rejected trace alone; returns the longest matched prefix length (events
     consumed) and the first unmatched event."""
-    tf = os.path.join(WORK, "%s.diag.ndjson" % tag)
+    tf = os.path.join(WORK, "%s.p%d.diag.ndjson" % (tag, os.getpid()))
     with open(tf, "w") as f:
         f.write(json.dumps(trace) + "\n")
     e = {"TRACES": tf, "DIAG": "1"}
